@@ -400,3 +400,14 @@ def r04k(ck, fb, R='R04k'):
                    'a result reachable after records were consumed reports a count without them: 10 records, strip_log_to(6), kill between the two '
                    'set_len calls (file ends at the last kept record) -> reopen finds 0 entries instead of 6')
     ck.floor(R, 'results after consumption', n, 2)
+
+
+def recovery_counts_on_every_exit(fb):
+    """True when every (cursor, count) result of move_to_index_by_count that is reachable after a consumption carries the loop counter (R04k holds)"""
+    from rn.report import Checker
+    sh = Checker('C04', fb, write=False)
+    try:
+        r04k(sh, fb)
+    except Exception:
+        return False
+    return not sh.violations and any(o[0] == 'R04k' for o in sh.obligations)
